@@ -3,55 +3,129 @@ import re
 from props import predicate, kv, unhex
 
 
+THEOREMS = [
+    # 1 languages
+    "iri_regex_exact", "irel_regex_exact", "iriref_is_union", "abs_rel_disjoint",
+    # 2 typed constructors over the generated wiring
+    "wiring_pinned", "is_absolute_exact", "is_relative_exact", "is_valid_ref_exact", "iri_new_exact",
+    "iriref_new_exact", "classification",
+    # 3 usable as a base
+    "iri_sub_oxiri", "iriref_sub_oxiri", "iri_as_base_never_panics", "iriref_as_base_never_panics",
+    # 4 namespaces
+    "suffixed_exact", "suffixed_none_exact", "namespace_get_exact", "ns_term_is_concatenation",
+    # 5 resolution: oracle laws, partial agreement of the code's algorithm, refutations of the full statement
+    "recompose_split", "resolve_same_document", "oxiri_agrees_partial", "oxiri_agrees_refuted_rootpop",
+    "oxiri_agrees_refuted_panic", "oxiri_agrees_refuted_base_dots", "oxiri_agrees_refuted_ref_authority",
+    "oxiri_deviation_values", "resolve_closed_refuted",
+]
+
 CONFIG = {
     "design_ref": "4.9",
-    "technique": "Lean 4 proof: verified regex-equivalence decision procedure (Antimirov derivatives + checked bisimulation certificate) on regexes regenerated from iri/src/_regex.rs vs RFC 3987 ABNF; differential vs regex crate/oxiri",
-    "level_text": "Proof (unbounded, all strings): the validators' regexes, regenerated from iri/src/_regex.rs on every run, accept exactly the RFC 3987 IRI / irelative-ref / IRI-reference languages and classify disjointly (kernel-checked soundness of the decision procedure; the per-regex obligation is evaluated by native_decide). Resolution (RFC 3986 5.2) is an executable Lean model compared with Iri::resolve/BaseIri on generated pairs: that part is differential, not proof.",
-    "level_note": "Trusted: RFC ABNF transcription; extract.py regex translator (cross-checked per case against the regex crate); native_decide (Lean compiler) for the four language obligations; oxiri internals only observed. Known findings: four RFC 3986 deviations/panics of resolution on dot-segment / authority-less corner cases.",
-    "tables": ["regexes"],
+    "technique": "Lean 4 proof: verified regex-equivalence / inclusion decision procedure (Antimirov derivatives + checked "
+                 "bisimulation certificate) on regexes regenerated from iri/src/_regex.rs vs the RFC 3987 ABNF and vs a hand "
+                 "model of oxiri's recogniser; typed constructors / namespace wiring regenerated from the source; RFC 3986 "
+                 "5.2 oracle and a transcription of oxiri's resolution algorithm as executable Lean models; differential vs "
+                 "the regex crate / oxiri through every public entry point",
+    "level_text": "Proof (unbounded, all strings): the validators' regexes, regenerated from iri/src/_regex.rs on every run, accept "
+                  "exactly the RFC 3987 IRI / irelative-ref / IRI-reference languages and classify disjointly; over the wiring "
+                  "regenerated from _wrapper.rs / _regex.rs / _namespace.rs, Iri::new / IriRef::new / is_valid_suffixed_iri_ref / "
+                  "Namespace::get accept exactly the RFC languages (of ns ++ suffix for the latter two), every accepted reference is "
+                  "exactly one of absolute / relative, and as_base / to_base cannot panic (validator language included in the hand "
+                  "model of oxiri's recogniser). Kernel-checked soundness of the decision procedure; the per-regex obligations are "
+                  "evaluated by native_decide. Resolution: the RFC 3986 5.2 oracle is an executable Lean model (proved: Appendix-B "
+                  "split/recompose is lossless, the empty reference drops exactly the fragment); the algorithm the code really runs "
+                  "(oxiri 0.2.11) is transcribed as a second model, proved equal to the oracle for same-document references ONLY "
+                  "(oxiri_agrees_partial) and refuted in general by four kernel-checked witnesses (= the four findings). "
+                  "Iri::resolve = RFC 3986 5.2 on generated pairs is differential, not proof.",
+    "level_note": "Trusted: RFC ABNF transcription; hand model of oxiri's recogniser (C08's Backend.Oxiri, tied per case by "
+                  "bnew/brnew); the Python regex translator (cross-checked per case against the regex crate); native_decide (Lean "
+                  "compiler) for the language obligations; source-shape extractor tools/extractors/c09.py (fail-closed). "
+                  "Known findings: four RFC 3986 deviations/panics of resolution on dot-segment / authority-less corner cases; "
+                  "each predicate demands that the implementation returned exactly the value the oxiri model predicts.",
+    "tables": ["regexes_iri", "iri_wiring"],
     "lean_targets": ["SophiaProofs.Props.C09", "SophiaProofs.Audit.C09"],
-    "theorems": ["iri_regex_exact", "irel_regex_exact", "iriref_is_union", "abs_rel_disjoint"],
-    "native_ok": ["iri_regex_exact", "irel_regex_exact", "iriref_is_union", "abs_rel_disjoint"],
-    "trivial_re": r"^abs=0 rel=0|^skip",
-    "rule": "members sampled from the HIR of IRI_REGEX_SRC / IRELATIVE_REF_REGEX_SRC as parsed by regex-syntax "
-            "(every production reachable), 2 single-character mutants each over an alphabet containing all class "
-            "boundaries +-1, a fixed corpus of shapes absent from the shipped table, (base, reference) pairs; a case "
-            "is non-trivial when the implementation accepts the string (or resolves the pair); distinct = distinct request lines",
+    "theorems": THEOREMS,
+    "native_ok": ["iri_regex_exact", "irel_regex_exact", "iriref_is_union", "abs_rel_disjoint", "is_absolute_exact",
+                  "is_relative_exact", "is_valid_ref_exact", "iri_new_exact", "iriref_new_exact", "classification",
+                  "iri_sub_oxiri", "iriref_sub_oxiri", "iri_as_base_never_panics", "iriref_as_base_never_panics",
+                  "suffixed_exact", "suffixed_none_exact", "namespace_get_exact"],
+    "trivial_re": r"^abs=0 rel=0|^skip=1|^ns_new=0",
+    "rule": "m: members sampled from the HIR of IRI_REGEX_SRC / IRELATIVE_REF_REGEX_SRC as parsed by regex-syntax (every "
+            "production reachable; repetition bound 1/3/12/40), 2 single-character mutants each over an alphabet containing all "
+            "class boundaries +-1, an enumeration of every IPv6 shape (0..8 groups before/after '::', with/without '::', IPv4 "
+            "tail, valid or not) in absolute and network-path form, dec-octet and IPvFuture boundary shapes, a fixed corpus; "
+            "ml: 12 long-token shapes up to 2*10^4 (thorough 2*10^5) characters; r: (base, reference) pairs from a corpus "
+            "(32 bases x 73 references) and random pairs (members, absolute references, mutants, empty, dotted paths with "
+            "authority/scheme) resolved through Iri::resolve and 10 other entry points; rr: any accepted reference as base "
+            "(IriRef::resolve, BaseIriRef); ns: Namespace::new/get and is_valid_suffixed_iri_ref on corpus and on members "
+            "split at a random position, both orders. A case is non-trivial when the implementation accepts the string "
+            "(resolves the pair / accepts the namespace); distinct = distinct request lines",
     "trusted_base": ["RFC 3987 / RFC 3986 ABNF transcription lean/SophiaModel/Model/Iri3987.lean",
                      "regex crate semantics for the supported syntax subset (cross-checked per case by the differential)",
-                     "oxiri (resolver) internals: observed through the differential only"],
+                     "hand model of oxiri's recogniser lean/SophiaModel/Model/Backend.lean (Oxiri.abs/ref; cross-checked per case: bnew/brnew)",
+                     "oxiri's resolution algorithm: transcription lean/SophiaModel/Model/OxiriResolve.lean, used only to pin the known deviations"],
     "assumptions": ["Rust regex `is_match` with ^...$ = whole-string membership (checked per generated case against the Lean matcher)"],
+    # generous: the whole quick run takes a few seconds; a loaded machine must never turn slowness into an alarm
+    "exec_timeout": 3600,
+    "gen_timeout": 3600,
 }
 
 
+_SCHEME = re.compile(r"^([A-Za-z][A-Za-z0-9+.-]*):")
+
 
 def _c09_parts(failure):
+    """(base, ref, scheme-or-None, base-after-scheme, got, rfc) of a resolution failure, or None.
+
+    TIGHT: only failures of the fields that carry the resolution result (`res` of an `r` request;
+    `rres` / `rpanic` of an `rr` request), and only when the implementation returned EXACTLY what the
+    Lean model of oxiri's algorithm (Model/OxiriResolve.lean, driver field `ox.res`) predicts for that
+    pair — the specific wrong value (or the error) of the known deviation.  Any other wrong result in
+    the same region is a different failure and is NOT masked."""
     toks = failure["request"].split()
-    if len(toks) != 3 or toks[0] != "r":
+    if len(toks) != 3 or toks[0] not in ("r", "rr"):
+        return None
+    I, M = kv(failure["impl"]), kv(failure["model"])
+    field = failure.get("field")
+    if toks[0] == "r":
+        if field != "res":
+            return None
+        got = I.get("res")
+        rfc = M.get("o.res")
+    else:
+        if field not in ("rres", "rpanic"):
+            return None
+        got = I.get("rres")
+        rfc = M.get("o.rres")
+    ox = M.get("ox.res")
+    if got is None or ox is None or got != ox:
         return None
     base, ref = unhex(toks[1]), unhex(toks[2])
-    I, M = kv(failure["impl"]), kv(failure["model"])
-    sch = base.split(":", 1)[0]
-    after = base[len(sch) + 1:]
-    return base, ref, sch, after, I, M
+    m = _SCHEME.match(base)
+    sch = m.group(1) if m else None
+    after = base[len(sch) + 1:] if sch is not None else base
+    return base, ref, sch, after, got, (unhex(rfc) if rfc is not None else None)
+
+
+def _path_of(s):
+    return s.split("?")[0].split("#")[0]
 
 
 def _has_dot_segment(path):
-    segs = path.split("?")[0].split("#")[0].split("/")
-    return any(s in (".", "..") for s in segs)
+    return any(seg in (".", "..") for seg in _path_of(path).split("/"))
 
 
 @predicate
 def c09_rootpop(failure):
     """authority-less base, '..' climbs past the root: oxiri drops the leading '/'"""
     x = _c09_parts(failure)
-    if not x or failure.get("field") != "res":
+    if not x:
         return False
-    base, ref, sch, after, I, M = x
-    if after.startswith("//") or ref.startswith("//") or I.get("res") in (None, "panic"):
+    base, ref, sch, after, got, rfc = x
+    if got == "panic" or rfc is None or sch is None or after.startswith("//") or ref.startswith("//"):
         return False
-    a, b = unhex(I["res"]), unhex(M.get("o.res", ""))
-    return b == sch + ":/" + a[len(sch) + 1:] and ".." in ref
+    a = unhex(got)
+    return rfc == sch + ":/" + a[len(sch) + 1:] and ".." in ref
 
 
 @predicate
@@ -61,13 +135,10 @@ def c09_resolve_panic_slashslash(failure):
     x = _c09_parts(failure)
     if not x:
         return False
-    base, ref, sch, after, I, M = x
-    if I.get("res") != "panic" or after.startswith("//") or ref.startswith("//"):
+    base, ref, sch, after, got, rfc = x
+    if got != "panic" or after.startswith("//") or ref.startswith("//") or _SCHEME.match(ref):
         return False
-    if re.match(r"^[A-Za-z][A-Za-z0-9+.-]*:", ref):
-        return False
-    bpath = after.split("?")[0].split("#")[0]
-    rpath = ref.split("?")[0].split("#")[0]
+    bpath, rpath = _path_of(after), _path_of(ref)
     merged = rpath if rpath.startswith("/") else bpath[:bpath.rfind("/") + 1] + rpath
     return "//" in merged
 
@@ -76,29 +147,27 @@ def c09_resolve_panic_slashslash(failure):
 def c09_base_dot_segments(failure):
     """dot segments already present in the *base* path are not removed by oxiri"""
     x = _c09_parts(failure)
-    if not x or failure.get("field") != "res":
+    if not x:
         return False
-    base, ref, sch, after, I, M = x
-    if I.get("res") in (None, "panic"):
+    base, ref, sch, after, got, rfc = x
+    if got == "panic":
         return False
-    # the reference itself is resolved correctly against a normalised base: only the base's own
-    # dot segments are at stake
-    return _has_dot_segment(after.split("?")[0].split("#")[0])
+    return _has_dot_segment(after)
 
 
 @predicate
 def c09_ref_authority_dot_segments(failure):
     """reference with its own scheme/authority: its dot segments are not removed"""
     x = _c09_parts(failure)
-    if not x or failure.get("field") != "res":
+    if not x:
         return False
-    base, ref, sch, after, I, M = x
-    if I.get("res") in (None, "panic"):
+    base, ref, sch, after, got, rfc = x
+    if got == "panic":
         return False
-    has_scheme = re.match(r"^[A-Za-z][A-Za-z0-9+.-]*:", ref) is not None
-    if not (ref.startswith("//") or has_scheme):
+    m = _SCHEME.match(ref)
+    if not (ref.startswith("//") or m):
         return False
-    return _has_dot_segment(ref.split("?")[0].split("#")[0])
+    return _has_dot_segment(ref[m.end():] if m else ref)
 
 
 def _c09_witness_requests(lines):
